@@ -216,18 +216,31 @@ func (e StdEng) Dot(x, y Tensor, opts ...FuncOpt) (retVal Tensor, err error) {
 			}
 			return New(FromScalar(ret)), nil
 		case b.IsMatrix():
-			b.T()
-			defer b.UT()
+			// the transpose is taken on a shallow copy (same data, metadata of its own): y keeps its
+			// shape and any pending transpose it carries
+			var bd, bT *Dense
+			if bd, err = assertDense(b); err != nil {
+				return nil, errors.Wrapf(err, opFail, "Dot")
+			}
+			bT = bd.ShallowClone()
+			if !bd.old.IsZero() {
+				bT.old = bd.old.Clone()
+				bT.transposeWith = append(BorrowInts(len(bd.transposeWith))[:0], bd.transposeWith...)
+			}
+			defer ReturnTensor(bT)
+			if err = bT.T(); err != nil {
+				return nil, errors.Wrapf(err, opFail, "Dot")
+			}
 			switch {
 			case reuse != nil && incr != nil:
-				return b.MatVecMul(a, WithReuse(reuse), WithIncr(incr))
+				return bT.MatVecMul(a, WithReuse(reuse), WithIncr(incr))
 			case reuse != nil:
-				return b.MatVecMul(a, WithReuse(reuse))
+				return bT.MatVecMul(a, WithReuse(reuse))
 			case incr != nil:
-				return b.MatVecMul(a, WithIncr(incr))
+				return bT.MatVecMul(a, WithIncr(incr))
 			default:
 			}
-			return b.MatVecMul(a)
+			return bT.MatVecMul(a)
 		default:
 
 		}
